@@ -289,14 +289,27 @@ class NodeBlock:
     def evaluate(self, environment):
         result = TRUE
         try:
-            for expression in self.expressions:
-                result = expression.evaluate(environment)
-                if result.isReturn():
-                    break
-                if result.isBreak():
-                    break
-                if result.isContinue():
-                    break
+            try:
+                for expression in self.expressions:
+                    result = expression.evaluate(environment)
+                    if result.isReturn():
+                        break
+                    if result.isBreak():
+                        break
+                    if result.isContinue():
+                        break
+            except (CklRuntimeError, CklSyntaxError):
+                raise
+            except Exception as e:
+                # a failure of the host in a form that is not a function call
+                # (ordering a set, rendering a value for a message, a key
+                # changed after insertion, ...) is an error of the program,
+                # like the same failure inside a function (see invoke)
+                raise CklRuntimeError(
+                    ValueString("ERROR"),
+                    f"{type(e).__name__}: {e}",
+                    self.pos,
+                )
         except CklRuntimeError as e:
             for err, expr in self.catchexprs:
                 if not err or e.value == err.evaluate(environment):
